@@ -336,6 +336,24 @@ let eval (op : string) (a : string list) : string =
   | "trlate", _ -> eval_trlate (kv a)
   | "trcut", _ -> eval_trlate ~cut:true (kv a)
   | "trsplit", _ -> eval_trsplit (kv a)
+  | "muxcut", _ ->
+    let m = kv a in
+    let res = ints_of (get "res" m) in
+    let pc, pn = (match String.split_on_char ':' (get "post" m) with [c; n] -> (hexi c, hexi n) | _ -> (0, 1)) in
+    let hang = List.exists (fun c -> c = 5) res in
+    let cut = List.for_all (fun c -> c = 3 || c = 4 || c = 5) res in
+    let post = mon_conn_cut [] (nat pc) (nat pn) in
+    let all = mon_conn_cut (List.map nat res) (nat pc) (nat pn) in
+    let b v = if v then "ok" else "BAD" in
+    (* the history must also be a run of the ConnMux model *)
+    let lin = if hang then "skip" else
+        (match search_mux (hexi (get "T" m)) (String.split_on_char ',' (get "kinds" m)) (ints_of (get "snd" m)) []
+                 (get "env" m) (get "res" m) with "NORUN" -> "NORUN" | _ -> "ok") in
+    ignore all;
+    Printf.sprintf "cut=%s hang=%s post=%s lin=%s" (b cut) (b (not hang)) (b post) lin
+  | "trmeta", _ ->
+    let m = kv a in
+    if mon_recover (get "meta" m = "1") (get "write" m = "1") (nat (hexi (get "count" m))) then "recover=ok" else "recover=BAD"
   | "trpage", _ ->
     let f = get "foreign" (kv a) in
     if f <> "" && mon_pure (zlist_of_csv f) then "pure=ok" else "pure=BAD"
